@@ -1301,7 +1301,7 @@ func (w *Worker) recsFromModel(m map[*Term]uint64) []NondetRec {
 				bs[j] = int(m[t])
 			}
 			r.Val = bs
-		case "choice":
+		case "choice", "sched":
 			r.Val = nd.Val
 		case "bool":
 			r.Val = m[nd.terms[0]] == 1
